@@ -60,6 +60,18 @@ fn get_file_or_stdin(path: &str) -> anyhow::Result<Box<dyn Read>> {
     Ok(result)
 }
 
+// Columns to underline on the span's first line.  A span only records the column at which it
+// ends, so one that ends on a later line is underlined up to the end of its first line.
+fn snippet_columns(span: &HumanSpan, line: &str) -> (usize, usize) {
+    let column_start = span.column_start_machine();
+    let column_end = span.column_end_machine();
+    if column_end > column_start {
+        (column_start, column_end)
+    } else {
+        (column_start, line.len().max(column_start + 1))
+    }
+}
+
 struct ErrMsg {
     err: chic::Error,
 }
@@ -72,14 +84,12 @@ impl ErrMsg {
     }
 
     fn error(self, span: &HumanSpan, source: &str, what: &str) -> Self {
+        let line = source.lines().nth(span.line_machine()).unwrap();
+        let (column_start, column_end) = snippet_columns(span, line);
         Self {
-            err: self.err.error(
-                span.line,
-                span.column_start_machine(),
-                span.column_end_machine(),
-                source.lines().nth(span.line_machine()).unwrap(),
-                what,
-            ),
+            err: self
+                .err
+                .error(span.line, column_start, column_end, line, what),
         }
     }
 
@@ -112,14 +122,12 @@ impl WarnMsg {
     }
 
     fn warning(self, span: &HumanSpan, source: &str, what: &str) -> Self {
+        let line = source.lines().nth(span.line_machine()).unwrap();
+        let (column_start, column_end) = snippet_columns(span, line);
         Self {
-            warning: self.warning.warning(
-                span.line,
-                span.column_start_machine(),
-                span.column_end_machine(),
-                source.lines().nth(span.line_machine()).unwrap(),
-                what,
-            ),
+            warning: self
+                .warning
+                .warning(span.line, column_start, column_end, line, what),
         }
     }
 
